@@ -1,3 +1,382 @@
-"""C04 second level (stub, replaced below)."""
+"""C04 second level: the dispatched calls that the rules themselves make (hand-written from the sources named in the
+comments), the translation of that call graph into argument sets over the abstract universe (emitted into
+C04_RuleTable.v, closed in Coq by `second_level_total`), and its validation against the nested dispatches observed
+while the public functions run on small instances (harness-side tracing of plum's Function.__call__).
+
+A template = (callee, [required argument specs], [optional argument specs]).  Argument specs:
+  ("arg", i)        the caller's i-th dispatched argument (any admissible value the caller's signature accepts)
+  "FACTOR"/"ANYOP"  any operator (a factor of A, or an operator the rule built: every kind of the universe)
+  ("cls", [...])    any annotation variant of the operator classes named
+  ("rep", [...])    the named non-operator reps (fresh algorithm objects, literals)
+Optional specs: ("P", spec) positional, ("K", spec) keyword, ("O",) omitted."""
+import time
+from collections import OrderedDict, Counter
+
+A0, A1, A2, A3 = ("arg", 0), ("arg", 1), ("arg", 2), ("arg", 3)
+ANYOP = "ANYOP"
+
+
+def P(s):
+    return ("P", s)
+
+
+def K(s):
+    return ("K", s)
+
+
+O = ("O",)
+
+
+def rep(*names):
+    return ("rep", list(names))
+
+
+def cls(*names):
+    return ("cls", list(names))
+
+
+UNARY = rep("Auto", "Eig", "Eigh", "Lanczos", "Arnoldi")
+
+# (function, signature hint names, has condition) -> templates
+CALLS = OrderedDict([
+    # cola/fns.py:93-95, 196-200, 224-227: lazify both sides and dispatch again
+    (("add", ("Any", "Any"), False), [("add", [ANYOP, ANYOP], [])]),
+    (("kron", ("Any", "Any"), False), [("kron", [ANYOP, ANYOP], [])]),
+    (("kronsum", ("Any", "Any"), False), [("kronsum", [ANYOP, ANYOP], [])]),
+    # decompositions.py:162-176, 194-211
+    (("cholesky", ("Diagonal|ScalarMul",), False), [("sqrt", [A0], [P(rep("Auto"))])]),
+    (("cholesky", ("Kronecker",), False), [("cholesky", [ANYOP], [])]),
+    (("cholesky", ("BlockDiag",), False), [("cholesky", [ANYOP], [])]),
+    (("plu", ("Diagonal|ScalarMul",), False), [("sqrt", [A0], [O])]),
+    (("plu", ("Kronecker",), False), [("plu", [ANYOP], [])]),
+    (("plu", ("BlockDiag",), False), [("plu", [ANYOP], [])]),
+    # inverse/inv.py:73-105: Auto picks a fresh algorithm; Cholesky / LU factor and invert the factors
+    (("inv", ("LinearOperator", "Auto"), False), [("inv", [A0], [P(rep("Cholesky", "CG", "LU", "GMRES"))])]),
+    (("inv", ("LinearOperator", "Cholesky"), False), [("cholesky", [A0], []), ("inv", [ANYOP], [O])]),
+    (("inv", ("LinearOperator", "LU"), False), [("plu", [A0], []), ("inv", [ANYOP], [O])]),
+    (("inv", ("Product", "Algorithm"), True), [("inv", [ANYOP], [P(A1)])]),
+    (("inv", ("BlockDiag", "Algorithm"), False), [("inv", [ANYOP], [P(A1)])]),
+    (("inv", ("Kronecker", "Algorithm"), False), [("inv", [ANYOP], [P(A1)])]),
+    # inverse/pinv.py:50-62
+    (("pinv", ("LinearOperator", "Auto"), False), [("pinv", [A0], [P(rep("LSTSQ", "CG"))])]),
+    # logdet/logdet.py:82-166
+    (("slogdet", ("LinearOperator", "Auto", "Algorithm"), False),
+     [("slogdet", [A0], [K(rep("Cholesky", "LU", "Lanczos", "Arnoldi")), K(A2)])]),
+    (("slogdet", ("LinearOperator", "Cholesky", "Algorithm"), False),
+     [("cholesky", [A0], []), ("slogdet", [ANYOP], [P(A1), P(A2)])]),
+    (("slogdet", ("LinearOperator", "LU", "Algorithm"), False),
+     [("plu", [A0], []), ("slogdet", [ANYOP], [P(A1), P(A2)])]),
+    (("slogdet", ("LinearOperator", "Lanczos|Arnoldi", "Algorithm"), False),
+     [("log", [A0], [P(A1)]), ("trace", [ANYOP], [P(A2)])]),
+    (("slogdet", ("Product", "Algorithm", "Algorithm"), True), [("slogdet", [ANYOP], [P(A1), P(A2)])]),
+    (("slogdet", ("Kronecker", "Algorithm", "Algorithm"), False), [("slogdet", [ANYOP], [P(A1), P(A2)])]),
+    (("slogdet", ("BlockDiag", "Algorithm", "Algorithm"), False), [("slogdet", [ANYOP], [P(A1), P(A2)])]),
+    # trace/diag_trace.py:43-147
+    (("diag", ("LinearOperator", "int", "Auto"), False), [("diag", [A0], [P(A1), P(rep("Exact", "Hutch"))])]),
+    (("diag", ("Sum", "int", "Algorithm"), False), [("diag", [ANYOP], [P(A1), P(A2)])]),
+    (("diag", ("BlockDiag", "int", "Algorithm"), False), [("diag", [ANYOP], [P(A1), P(A2)])]),
+    (("diag", ("ScalarMul", "int", "Algorithm"), False), [("diag", [cls("Identity")], [P(A1), P(A2)])]),
+    (("diag", ("Kronecker", "int", "Algorithm"), False), [("diag", [ANYOP], [P(A1), P(A2)])]),
+    (("diag", ("KronSum", "int", "Algorithm"), False), [("diag", [ANYOP], [P(A1), P(A2)])]),
+    (("trace", ("LinearOperator", "Algorithm"), False), [("diag", [A0], [P(rep("pyint0")), P(A1)])]),
+    (("trace", ("Kronecker", "Algorithm"), False), [("trace", [ANYOP], [P(A1)])]),
+    # unary/unary.py:114-211
+    (("apply_unary", ("Callable", "LinearOperator", "Auto"), False),
+     [("apply_unary", [A0, A1], [P(rep("Eigh", "Eig", "Lanczos", "Arnoldi"))])]),
+    (("apply_unary", ("Callable", "LinearOperator", "Eig"), False), [("inv", [cls("Dense")], [O])]),
+    (("apply_unary", ("Callable", "BlockDiag", "Algorithm"), False), [("apply_unary", [A0, ANYOP], [P(A2)])]),
+    (("apply_unary", ("Callable", "Transpose", "Algorithm"), False), [("apply_unary", [A0, ANYOP], [P(A2)])]),
+    (("apply_unary", ("Callable", "Adjoint", "Algorithm"), False), [("apply_unary", [A0, ANYOP], [P(A2)])]),
+    # unary/unary.py:228-334 (the signatures with the default dropped receive the algorithm by keyword or default)
+    (("exp", ("LinearOperator", "Algorithm"), False), [("apply_unary", [rep("callable"), A0], [P(UNARY)])]),
+    (("exp", ("KronSum", "Algorithm"), False), [("exp", [ANYOP], [P(A1)])]),
+    (("log", ("LinearOperator", "Algorithm"), False), [("apply_unary", [rep("callable"), A0], [P(UNARY)])]),
+    (("pow", ("LinearOperator", "Number", "Algorithm"), False),
+     [("apply_unary", [rep("callable"), A0], [P(UNARY)]),
+      ("inv", [A0], [P(rep("CG", "GMRES", "Cholesky", "LU", "Auto"))])]),
+    (("pow", ("Kronecker", "Number", "Algorithm"), False), [("pow", [ANYOP, A1], [P(A2)])]),
+    (("sqrt", ("LinearOperator", "Algorithm"), False), [("pow", [A0, rep("pyfloat")], [P(UNARY)])]),
+    (("isqrt", ("LinearOperator", "Algorithm"), False), [("pow", [A0, rep("pyfloat")], [P(UNARY)])]),
+    # eig/eigs.py:76-96, svd/svd.py:38-84
+    (("eig", ("LinearOperator", "int", "str", "Auto"), False),
+     [("eig", [A0, A1], [P(A2), P(rep("PowerIteration", "Eigh", "Eig", "Lanczos", "Arnoldi"))])]),
+    (("eig", ("Triangular", "int", "str", "Algorithm"), False), [("diag", [A0], [O, O]), ("diag", [A0], [P(rep("pyint0", "pyint")), O])]),
+    (("svd", ("LinearOperator", "int", "str", "Auto"), False),
+     [("svd", [A0, A1], [P(A2), P(rep("DenseSVD", "Lanczos"))])]),
+    (("svd", ("LinearOperator", "int", "str", "Lanczos"), False), [("inv", [cls("Diagonal")], [O])]),
+    (("svd", ("LinearOperator", "int", "str", "LOBPCG"), False), [("inv", [cls("Diagonal")], [O])]),
+])
+
+# operator algebra available to every rule and to the constructors (operator_base.py:87-140, LinearOperator.__init__)
+GENERIC = [
+    ("get_annotations", [ANYOP], []),
+    ("transpose", [ANYOP], []),
+    ("adjoint", [ANYOP], []),
+    ("dot", [ANYOP, ANYOP], []),
+    ("add", [ANYOP, ANYOP], []),
+    ("mul", [ANYOP, rep("pyint", "pyfloat", "pycomplex", "npfloat", "np0d")], []),
+]
+
+
+def resolve_templates(T):
+    """-> list of dict(caller, orig, callee, req=[[rep names]], opt=[[(kind, rep name)]]) over the universe of T;
+    rules of the live table without an entry in CALLS make no dispatched call according to the hand model (listed in
+    `unmodelled`: rules whose entry no longer matches any live registration)."""
+    reps = T["reps"]
+    U = T["U"]
+    out, stale = [], []
+    live_keys = set()
+    for fn, d in T["funcs"].items():
+        for ri, q in enumerate(d["raw"]):
+            key = (fn, tuple(T["type_names"][t] for t in q["types"]), q["cond"] is not None)
+            live_keys.add(key)
+            if key not in CALLS:
+                continue
+            req_c, opt_c = U.LATTICE[fn]
+            full_req, full_opt = __import__("translate_c04_rules").choices(T, fn, True)
+            pos_choices = full_req + full_opt
+
+            def argset(i):
+                t = q["types"][i]
+                return [n for n in pos_choices[i] if T["bear"][n][t]]
+
+            def setof(spec):
+                if spec == ANYOP or spec == "FACTOR":
+                    return list(T["op_all"])
+                if spec[0] == "arg":
+                    return argset(spec[1])
+                if spec[0] == "cls":
+                    return [n for n in T["op_all"] if reps[n].cls in spec[1]]
+                if spec[0] == "rep":
+                    return list(spec[1])
+                raise ValueError(spec)
+            for (callee, rq, op) in CALLS[key]:
+                opt = []
+                for o in op:
+                    if o[0] == "O":
+                        opt.append([("O", None)])
+                    else:
+                        opt.append([(o[0], n) for n in setof(o[1])])
+                out.append(dict(caller=fn, orig=ri, callee=callee, req=[setof(s) for s in rq], opt=opt))
+    for key in CALLS:
+        if key not in live_keys:
+            stale.append(key)
+    for (callee, rq, op) in GENERIC:
+        def setof(spec):
+            return list(T["op_all"]) if spec == ANYOP else list(spec[1])
+        out.append(dict(caller="*", orig=0, callee=callee, req=[setof(s) for s in rq], opt=[]))
+    return out, stale
+
+
+def coq_templates(T):
+    rid = T["rid"]
+    tm, stale = resolve_templates(T)
+    L = ["", "(* ---- second level: dispatched calls made by the rules (hand-written call graph harness/c04_calls.py) ---- *)"]
+    for k in stale:
+        L.append(f"(* stale call-graph entry (no such registration in the live table): {k[0]} {' '.join(k[1])} *)")
+
+    def af(k, n):
+        return "Omit" if k == "O" else f"{'Pos' if k == 'P' else 'Kw'} {rid[n]}%positive"
+    ents = []
+    for t in tm:
+        req = "[" + "; ".join("[" + ";".join(f"{rid[n]}%positive" for n in s) + "]" for s in t["req"]) + "]"
+        opt = "[" + "; ".join("[" + ";".join(af(k, n) for (k, n) in s) + "]" for s in t["opt"]) + "]"
+        ents.append(f"  mktmpl \"{t['caller']}\" {t['orig']}%N \"{t['callee']}\" {req} {opt}")
+    L.append("Definition templates : list tmpl := [")
+    L.append(";\n".join(ents))
+    L.append("].")
+    return "\n".join(L) + "\n"
+
+
+# ---------------------------------------------------------------------------------------------------------------
+def abstract_class(T, v):
+    """class name of an observed argument, as in the universe"""
+    import numpy as np
+    from cola.ops import LinearOperator
+    from cola.linalg.algorithm_base import Algorithm
+    if isinstance(v, LinearOperator):
+        return type(v).__name__.split("[")[0]
+    if isinstance(v, Algorithm):
+        return type(v).__name__
+    if isinstance(v, bool):
+        return "bool"
+    if isinstance(v, (int, np.integer)):
+        return "int"
+    if isinstance(v, np.floating):
+        return "float64"
+    if isinstance(v, float):
+        return "float"
+    if isinstance(v, (complex, np.complexfloating)):
+        return "complex"
+    if isinstance(v, np.ndarray):
+        return "ndarray0d" if v.ndim == 0 else "ndarray"
+    if isinstance(v, str):
+        return "str"
+    if callable(v):
+        return "callable"
+    return type(v).__name__
+
+
+NUMERIC = {"int", "float", "float64", "complex", "ndarray0d"}
+
+
 def run(ctx, T, full):
-    return dict(mismatches=[], extra={}, evaluations=0)
+    """drive the public functions on small instances, record nested dispatches, check them against the templates"""
+    import translate_c04_rules as TR
+    import c04_lattice as LT
+    import c04_trace as TC
+    U, reps = T["U"], T["reps"]
+    tm, stale = resolve_templates(T)
+    by_caller = {}
+    for t in tm:
+        by_caller.setdefault((t["caller"], t["orig"]), []).append(t)
+    generic = [t for t in tm if t["caller"] == "*"]
+
+    def classes(names):
+        return {reps[n].cls for n in names}
+    for t in tm:
+        t["req_cls"] = [classes(s) for s in t["req"]]
+        t["opt_cls"] = [({k for k, _ in s}, classes([n for k, n in s if n is not None])) for s in t["opt"]]
+
+    def orig_of(rec):
+        d = T["funcs"].get(rec.fn)
+        if d is None or rec.sig is None:
+            return None
+        for r in d["rules"]:
+            if r["sig"] is rec.sig:
+                return r["orig"]
+        return None
+
+    def fits(t, rec):
+        """does the observed call `rec` instantiate template t"""
+        if t["callee"] != rec.fn:
+            return False
+        spec = U.LATTICE.get(rec.fn)
+        if spec is None:
+            return False
+        nreq = len(spec[0])
+        names = [n for n, _ in spec[1]]
+        args = list(rec.args)
+        kw = dict(rec.kw)
+        # an abstract wrapper has already bound everything positionally: accept it as the positional/keyword form
+        # the template names if the VALUES fit
+        if len(args) < nreq:
+            return False
+        for a, cs in zip(args[:nreq], t["req_cls"]):
+            c = abstract_class(T, a)
+            if c not in cs and not (c in NUMERIC and cs & NUMERIC):
+                return False
+        extra = args[nreq:]
+        for i, (kinds, cs) in enumerate(t["opt_cls"]):
+            if i < len(extra):
+                v = extra[i]
+            elif names[i] in kw:
+                v = kw[names[i]]
+            else:
+                if "O" in kinds:
+                    continue
+                return False
+            if "O" in kinds and not cs:
+                # template says omitted; a bound default (abstract wrapper) is the only acceptable value
+                d = T["funcs"][rec.fn]["abstract"]
+                if d is None or abstract_class(T, v) != reps[d[i]].cls:
+                    return False
+                continue
+            c = abstract_class(T, v)
+            if c not in cs and not (c in NUMERIC and cs & NUMERIC):
+                return False
+        return True
+
+    kinds_q = ["Dense", "Triangular", "Sparse", "ScalarMul", "Identity", "Product", "ProductNS", "Sum", "Kronecker", "KronSum",
+               "BlockDiag", "Diagonal", "Tridiagonal", "Transpose", "Permutation", "LinearOperator"]
+    limit = 1.0 if full else 0.35
+    t0 = time.time()
+    budget = ctx.budget(45.0, 400.0)
+    ncalls = nnested = 0
+    unexplained = Counter()
+    lookup_nested = {}
+    errs = Counter()
+    seen_edges = set()
+    fns = [f for f in U.LATTICE if f not in ("dot", "add", "kron", "kronsum", "mul", "transpose", "adjoint", "get_annotations")]
+    work = []
+    for fn in fns:
+        reqc, optc = TR.choices(T, fn, False)
+
+        def keep(r):
+            R = reps[r]
+            if R.sort != "op":
+                return True
+            if R.cls in ("Jacobian", "Hessian", "ConvolveND", "Kernel", "AdaNysPrecond", "NystromPrecond", "NystromPrecondLazy"):
+                return False
+            if full:
+                return R.ann in ("", "PSD")
+            return (R.kind in kinds_q and R.ann == "") or (R.kind in ("Dense", "Kronecker", "BlockDiag", "Diagonal") and R.ann == "PSD")
+        for req, opt in LT.calls([[r for r in c if keep(r)] for c in reqc], optc):
+            nk = sum(1 for k, _ in opt if k == "K")
+            if nk and not all(k != "P" for k, _ in opt):
+                continue  # mixed forms dispatch like one of the pure ones
+            if not full and any(x == "Hutch" for _, x in opt):
+                continue  # stochastic estimators only in the thorough tier (slow on purpose-free inputs)
+            work.append((fn, req, opt))
+    ctx.rng.shuffle(work)
+    # binary combinators: a few hundred pairs
+    for fn in ("dot", "add", "kron", "kronsum"):
+        ks = [k for k in kinds_q]
+        for a in ks:
+            for b in ks:
+                work.append((fn, [a, b], []))
+    skipped = 0
+    for (fn, req, opt) in work:
+        if time.time() - t0 > budget:
+            skipped += 1
+            continue
+        f = U.public_callable(fn)
+        names = [n for n, _ in U.LATTICE[fn][1]]
+        args = [reps[x].obj for x in req] + [reps[x].obj for k, x in opt if k == "P"]
+        kwargs = {n: reps[x].obj for (k, x), n in zip(opt, names) if k == "K"}
+        log, e, msg = TC.run_traced(f, args, kwargs, limit)
+        ncalls += 1
+        if e:
+            errs[e] += 1
+        for rec in log:
+            if rec.parent is None or rec.fn not in T["funcs"]:
+                continue
+            nnested += 1
+            po = orig_of(rec.parent)
+            cands = by_caller.get((rec.parent.fn, po), []) + generic
+            edge = (rec.parent.fn, po, rec.fn)
+            seen_edges.add(edge)
+            if not any(fits(t, rec) for t in cands):
+                key = (rec.parent.fn, str(rec.parent.sig).replace("Dispatched on ", "")[:120], rec.fn,
+                       tuple(abstract_class(T, a) for a in rec.args), tuple(sorted(rec.kw)))
+                unexplained[key] += 1
+            if rec.err in ("AmbiguousLookupError", "NotFoundLookupError"):
+                cl = tuple(abstract_class(T, a) for a in rec.args)
+                lookup_nested.setdefault((rec.fn, cl, rec.err), LT.form_str(fn, req, opt, names))
+    mismatches = []
+    for key, n in list(unexplained.items())[:10]:
+        mismatches.append(dict(oracle_fail=False, what="nested dispatch observed on the real code is not an instance of any template of the hand-written call graph (harness/c04_calls.py)",
+                               caller=key[0], caller_rule=key[1], callee=key[2], arg_classes=key[3], keywords=key[4], occurrences=n))
+    # nested lookup failures: attributed to the committed exceptions, otherwise violations
+    attributed, unattr = [], []
+    for (cfn, cl, err), witness in lookup_nested.items():
+        kind = "Ambiguous" if err.startswith("Ambiguous") else "NotFound"
+        hit = None
+        for k in T["known"]:
+            if k["fn"] == cfn and k["kind"] == kind and len(k["classes"]) == len(cl) and all(p == "*" or p == c for p, c in zip(k["classes"], cl)):
+                hit = k["tuple"]
+                break
+        if hit:
+            attributed.append((f"{cfn}({','.join(cl)})", hit, witness))
+        else:
+            unattr.append((f"{cfn}({','.join(cl)})", err, witness))
+    for (tup, err, witness) in unattr[:5]:
+        mismatches.append(dict(oracle_fail=True, what=f"second-level dispatch {tup} raised {err} inside the public call {witness}; not covered by the committed exception list",
+                               case=witness, expected="a unique rule", got=err))
+    extra = dict(second_level_public_calls=ncalls, second_level_nested_dispatches=nnested,
+                 second_level_edges_observed=len(seen_edges), second_level_templates=len(tm),
+                 second_level_stale_entries=[f"{k[0]}({','.join(k[1])})" for k in stale],
+                 second_level_skipped_for_time=skipped,
+                 second_level_lookup_errors_attributed=sorted({f"{a} -> {h}" for a, h, _ in attributed})[:20],
+                 second_level_exceptions=dict(errs))
+    return dict(mismatches=mismatches, extra=extra, evaluations=ncalls)
